@@ -389,8 +389,8 @@ def streams(tier, avoid):
         "battery": st.integers(0, 5), "by_rail": st.booleans()})
     return [
         Stream("interleave", body_interleave, strategy=inter,
-               n={"quick": 70, "thorough": 900}, reduce=_reduce_i),
-        Stream("batt_faults", body_batt, strategy=batt, n={"quick": 20, "thorough": 300},
+               n={"quick": 70, "thorough": 500}, reduce=_reduce_i),
+        Stream("batt_faults", body_batt, strategy=batt, n={"quick": 20, "thorough": 150},
                reduce=_reduce_b),
         Stream("interleaved_edits", body_edits, strategy=edit_cases(),
                n={"quick": 80, "thorough": 1000}),
